@@ -474,6 +474,8 @@ def generic_check(pid, tier, seed, script_kind, rule, nprogs, nscripts, length, 
                 cmds = binding_script(route, origin, rng)
             jobs.append((prog, cmds, script_kind))
     traces = eng.execute(jobs)
+    if pid in ('C01', 'C02', 'C10'):
+        wiring_net(chk, eng, tier, seed, 300 if tier == 'quick' else 4000)
     if traces:
         chk.sample({'cfg': traces[0]['prog'].cfg, 'route': traces[0]['cx']['route'][:3],
                     'commands': [cmd_line(e['cmd']) for e in traces[0]['events']][:14],
@@ -702,3 +704,80 @@ def mc_replay(chk, tier, which, strict=False):
                                   f'observed {json.dumps(got)[:260]}',
                                   {'program': name, 'decls': decls, 'cfg': cfg, 'cx': cx,
                                    'commands': [cmd_line(c) for c in job[1]] + [cmd_line(h['cmd']) for h in job[2]]})
+
+
+# ----------------------------------------------------------------------------------------------
+# the wiring net: many models, no compiler; disagreements are confirmed on the compiled program
+# ----------------------------------------------------------------------------------------------
+
+FACT_OWNER = {'reroute-in': 'C01', 'reroute-out': 'C01', 'ref-out': 'C01', 'ref-in': 'C01', 'mc-out': 'C01', 'mc-ref-out': 'C01',
+              'client-claim': 'C04', 'client-release': 'C04', 'client-ref': 'C01', 'unparsed': 'C01',
+              'accessor': 'C02', 'member': 'C02', 'meta-name': 'C02',
+              'check': 'C10', 'mc-final': 'C10', 'check-encapsulee': 'C10', 'parent': 'C10', 'origin': 'C09'}
+
+
+def scan_model(args):
+    decls, cfg, grant, idx = args
+    from . import scan  # pylint: disable=import-outside-toplevel
+    core.repo_guard()
+    prog = cxx.Program(decls, cfg)
+    try:
+        if not prog.generate():
+            return None
+    except AssertionError:
+        return None
+    info = prog.info
+    facts = scan.scan(prog.files[info.shell_name + '.cc'], [p['name'] for p in info.ports], info.shell_name)
+    return {'decls': decls, 'cfg': cfg, 'grant': grant, 'idx': idx, 'facts': facts}
+
+
+def wiring_net(chk, eng, tier, seed, count):
+    """Build `count` random models, scan the generated source, let TLC compare with WiringOf; every model on which they
+    disagree is compiled and driven (events, bindings, facilities) - only executions can report a violation."""
+    import multiprocessing  # pylint: disable=import-outside-toplevel
+    rng = random.Random(seed * 77 + int(chk.pid[1:]))
+    jobs = []
+    for i in range(count):
+        decls, cfg, grant = gen_model(rng, want_mc=None if i % 3 else True, clash=(i % 5 == 0))
+        jobs.append((decls, cfg, grant, i))
+    with multiprocessing.Pool(min(core.NCPU, 16)) as pool:
+        scanned = [r for r in pool.map(scan_model, jobs, chunksize=20) if r is not None]
+    traces = []
+    for rec in scanned:
+        traces.append({'id': f'w{rec["idx"]}', 'events': [{'decls': rec['decls'], 'cfg': rec['cfg'], 'scan': True, 'wiring': rec['facts'],
+                                                          'obs': {'ok': True, 'stage': 'build', 'family': '', 'files': 8, 'exc': ''}}]})
+        chk.count(('wiring', rec['idx']))
+    chk.extra['wiring_models_scanned'] = len(scanned)
+    by_id = {t['id']: rec for t, rec in zip(traces, scanned)}
+    rejected = core.validate_traces(chk, 'ShellTrace', 'ShellTrace.cfg', traces, batch=500)
+    chk.extra['wiring_disagreements'] = len(rejected)
+    promoted = []
+    for num, (trace, pos) in enumerate(rejected[:12]):
+        rec = by_id[trace['id']]
+        exp = core.explain_trace('ShellTrace', 'ShellTrace.cfg', trace, pos) if num < 6 else None
+        missing = extra = []
+        if isinstance(exp, dict):
+            want = {json.dumps(f, sort_keys=True) for f in exp.get('wiring', [])}
+            have = {json.dumps(f, sort_keys=True) for f in rec['facts']}
+            missing, extra = sorted(want - have)[:4], sorted(have - want)[:4]
+        promoted.append((rec, missing, extra))
+    for rec, missing, extra in promoted:
+        chk.disagreements_checked += 1
+        prog = cxx.Program(rec['decls'], rec['cfg'])
+        prog.grant = rec['grant']
+        note = f'wiring of model w{rec["idx"]} differs from WiringOf (missing {missing}, unexpected {extra})'
+        if not prog.compile():
+            eng.compile_failure(prog)
+            continue
+        chk.programs += 1
+        route, origin = prog.info.route(), prog.info.origin
+        rng2 = random.Random(seed + rec['idx'])
+        jobs2 = [(prog, event_script(route, origin, rng2, 60, prog.grant), 'promoted-events') for _ in range(6)] + \
+                [(prog, binding_script(route, origin, rng2), 'promoted-bindings') for _ in range(8)] + \
+                [(prog, facility_script(route, origin, rng2), 'promoted-facilities')]
+        before = len(chk.violations)
+        eng.validate(eng.execute(jobs2))
+        if len(chk.violations) == before:
+            chk.notes.append(note + ': confirmed harmless by execution')
+        else:
+            chk.notes.append(note + ': CONFIRMED by execution')
